@@ -4,7 +4,7 @@
     dist / mass (keys of the abundance and mass tables), mdl (reference isotope), pack_ref / unpack_ref (entries of the two
     common_isotopes tables in the .pyx sources), unpack_sym (entry of the element list of the decoder), mass_nat (1 iff the natural
     atomic mass is computable), mass_iso (per tabulated isotope 1 iff its mass is computable), qz / qsym (number of the query
-    variant by number / by symbol), dz / dsym (the same for the dynamic variant), rules (1 iff the valence tables compile),
+    variant by number / by symbol), dz / dsym (the same for the dynamic variant), qname / dname (the symbols the variants report), rules (1 iff the valence tables compile),
     nrules (number of compiled rules)] *)
 EXTENDS Valence, SmilesRead
 CONSTANT CH
@@ -25,6 +25,8 @@ Verdict(r) ==
   \cup If(\E x \in SeqSet(r.dist) \cup SeqSet(r.mass) : (x - r.mdl) \notin -8..8, "isotope-not-representable-in-the-matcher-layout")
   \cup If(r.qz # r.z \/ r.qsym # r.z, "query-variant")
   \cup If(r.dz # r.z \/ r.dsym # r.z, "dynamic-variant")
+  \cup If(r.qname # Symbols[r.z], "query-variant-symbol")
+  \cup If(r.dname # Symbols[r.z], "dynamic-variant-symbol")
   \cup If(r.rules # 1 \/ r.nrules # Len(Rules[r.z]), "valence-tables-do-not-compile-to-the-documented-rules")
 Init == c \in 0..(CH-1) /\ i = c + 1
 Next == i + CH <= N /\ i' = i + CH /\ c' = c
